@@ -1,28 +1,21 @@
-"""Per-property configuration of ./check."""
+"""Per-property configuration of ./check: one file pylib/propcfg/Cxx.py per claimed
+property, each defining CFG = dict(
+    coq=[make targets under coq/ whose build is the property's proof obligation, normally "props/Cxx.vo"],
+    tie=[optional "gen/Tie_Cxx.vo" obligations over the translator-regenerated gen/Extracted.v],
+    model_vo=[model .vo files the extraction needs],
+    extract="Ex_Cxx"   (coq/extract/Ex_Cxx.v must define `run : tree -> tree`),
+    rule="how cases are generated and what makes one distinct / non-trivial",
+    level_text=..., level_note=..., trusted=[...], assumptions=[...])."""
+import importlib, os, glob, sys
 
-PROPS = {
-    "C20": dict(
-        coq=["props/C20.vo"],
-        model_vo=["model/HashSet.vo", "model/HashSetSpec.vo"],
-        extract="Ex_C20",
-        level_text="Refinement theorem C20_refines: every Add/Flush/Has/reopen/Len/dump sequence on the transliterated "
-                   "hash set gives the outputs of an abstract set (no bound on length, batch size or hash values), plus the "
-                   "flush-merge kernel and membership corollary; model tied to pkg/index by differential execution "
-                   "(exhaustive small scope + random sequences incl. raw file bytes).",
-        level_note="Theorems are about coq/model/HashSet.v (hand transliteration); tie = correspondence harness; "
-                   "os.File semantics and uint32 overflow (>= 2^32 entries) assumed.",
-        rule="exhaustive: all sequences of <=4 (quick) / <=5 (thorough) Add/Flush ops over 4 hashes x batch sizes 1..3, "
-             "each followed by flush, Has of every hash, raw file dump, reopen, dump, Has; random: 5..65 ops over a "
-             "hash space with first byte in {00,01,7f,ff} and 2..5 values in two tail bytes, batch sizes 0..5, reopen at "
-             "random points. distinct = distinct case text; non-trivial = at least two ops before the final flush",
-        trusted=["hash = big-endian N of the 16 bytes (tree coder in model/HashSet.v); file modelled as (fanout, table) "
-                 "with an empty file read as an all-zero fanout; uint32 wrap of counters not modelled (< 2^32 entries)"],
-        assumptions=["os.File Read returns the full 4/16 bytes requested (single Read calls in pkg/index/utils.go)",
-                     "fewer than 2^32 entries"],
-    ),
-}
+_here = os.path.dirname(os.path.abspath(__file__))
+sys.path.insert(0, _here)
+PROPS = {}
+for _f in sorted(glob.glob(os.path.join(_here, "propcfg", "C*.py"))):
+    _pid = os.path.basename(_f)[:-3]
+    PROPS[_pid] = importlib.import_module("propcfg." + _pid).CFG
 
-# Properties not yet claimed (kept current; see DESIGN.md section 10 for the construction order).
+# Properties not (yet) claimed: reason recorded in MANIFEST.not_applicable.
 PENDING = {p: "machinery for this property is not built yet in this revision (construction order in DESIGN.md section 10); "
               "no claim is made until its model, theorems and correspondence exist"
            for p in ["C%02d" % i for i in range(1, 21)]}
